@@ -760,7 +760,7 @@ func main() {
 	// components in every position under both settings of exclude-test-suffix
 	nc, ni := 7, 6
 	if tier != "quick" {
-		nc, ni = 120, 100
+		nc, ni = 60, 60
 	}
 	g2 := &gen{hutil.NewRng(hutil.SeedFromEnv() ^ 0xc011)}
 	for i := 0; i < nc; i++ {
@@ -779,7 +779,7 @@ func main() {
 	// function level of directory-package-mismatch: rule (Rego) vs fix (Go) on generated package paths
 	nd := 140
 	if tier != "quick" {
-		nd = 1200
+		nd = 600
 	}
 	de, err := newDpmEnv()
 	if err != nil {
